@@ -7,7 +7,7 @@ use crate::util::*;
 use serde_json::{Value, json};
 use std::collections::HashMap;
 use std::net::{IpAddr, SocketAddr};
-use std::time::Duration;
+use std::time::{Duration, Instant};
 use vp_common::{Cli, Report, Rng, Tier};
 use vp_common::refcodec::Pkt;
 use vp_sim::client::{Act, Client, Transport};
@@ -802,6 +802,66 @@ async fn unrequested_header_family(report: &mut Report) {
     direct.stop.cancel();
 }
 
+/// The limiter is asked when the effective address is known - after the PROXY header - and that is
+/// the moment of the attempt. A balancer connection that was opened early (pooled, slow) and
+/// announces its client two window lengths after that client's last visit is a new visit of a key
+/// that was silent for two durations: admitted.
+async fn late_header_family(report: &mut Report) {
+    let direct = start_direct(DirectSpec { timeout: Duration::from_secs(9), limiter: Some((Duration::from_secs(2), 1)), proxy: Some((true, true)), ..Default::default() }).await;
+    let addr = direct.addr;
+    let source: SocketAddr = "198.51.100.201:41000".parse().expect("addr");
+    // the client's first visit uses its allowance of one
+    let first = match TcpEnd::connect(addr, None).await {
+        Ok(end) => {
+            end.send(&tcp::proxy_v2(source, addr));
+            let log = Client::new(&end, scripts::plan(scripts::status_script("late.example.org", 25565, 1), true, [2u8; 16], Duration::from_secs(3))).run().await;
+            end.kill();
+            log.count("StatusResponse") > 0
+        }
+        Err(_) => false,
+    };
+    let t_first = Instant::now();
+    // the balancer opens its next connection right away, and says nothing yet
+    tokio::time::sleep(Duration::from_millis(300)).await;
+    let Ok(pooled) = TcpEnd::connect(addr, None).await else {
+        report.inconclusive("late header: connect failed");
+        direct.stop.cancel();
+        return;
+    };
+    // control: a second visit right now is over the limit
+    let refused_meanwhile = match TcpEnd::connect(addr, None).await {
+        Ok(end) => {
+            end.send(&tcp::proxy_v1(source, addr));
+            let log = Client::new(&end, scripts::plan(scripts::status_script("late.example.org", 25565, 2), true, [2u8; 16], Duration::from_secs(2))).run().await;
+            end.kill();
+            log.count("StatusResponse") == 0
+        }
+        Err(_) => false,
+    };
+    let t_control = Instant::now();
+    // two durations after the client's last attempt (the refused one) the pooled connection announces it
+    tokio::time::sleep_until((t_control + Duration::from_millis(4_600)).into()).await;
+    pooled.send(&tcp::proxy_v2(source, addr));
+    let log = Client::new(&pooled, scripts::plan(scripts::status_script("late.example.org", 25565, 3), true, [2u8; 16], Duration::from_secs(3))).run().await;
+    pooled.kill();
+    direct.stop.cancel();
+    report.eval(Some("late-header/announced-two-durations-after-the-last-visit"));
+    report.count("balancer connections that announced their client long after they were opened", 1);
+    let detail = json!({"window_s": 2, "limit": 1, "first_visit_served": first, "visit_right_after_refused": refused_meanwhile, "pooled_connection_opened_s_after_first_visit": 0.3, "header_sent_s_after_last_attempt": t_control.elapsed().as_secs_f64(), "s_after_first_visit": t_first.elapsed().as_secs_f64(), "clientbound": log.names()});
+    report.sample(json!({"case": "PROXY header sent 4.6 s after the client's last attempt on a connection opened 4.9 s earlier", "observed": detail}));
+    if !first || !refused_meanwhile {
+        report.inconclusive("late header: the first visit was not served or the visit right after it was not refused - nothing to conclude");
+        return;
+    }
+    if log.count("StatusResponse") == 0 {
+        report.violation(
+            "refused-although-admissible/proxy-on/header-sent-two-durations-after-the-last-visit",
+            "a client whose last attempt lay more than two window lengths back was refused: its visit was announced on a connection the balancer had opened earlier",
+            detail,
+        );
+    }
+}
+
 pub async fn run(cli: &Cli, report: &mut Report) {
     let seqs = generate(cli);
     let futs: Vec<_> = seqs.iter().map(run_seq).collect();
@@ -835,6 +895,9 @@ pub async fn run(cli: &Cli, report: &mut Report) {
     config_wiring(report).await;
     config_file_wiring(report).await;
     unrequested_header_family(report).await;
+    if cli.prop == "C15" || cli.prop == "C13" {
+        late_header_family(report).await;
+    }
     if cli.prop == "C15" {
         cookie_binding_family(report).await;
         crate::c08net::run(cli, report).await;
